@@ -139,6 +139,15 @@ func (r *crun) apply(op harness.Op, idx int) {
 		r.coins[idx] = []*cluster.Coin{coin}
 		r.txOf[idx] = tx
 		r.submit(r.node(op.N), tx, true)
+		// a client may hand the same transaction to several nodes at once: each may propose it, and the
+		// same transaction can then be finalized by snapshots of more than one chain
+		for k := int64(1); k <= op.D; k++ {
+			if o := r.node(op.N + int(k)*2 + 1); o != r.node(op.N) && o.Alive {
+				if _, err := c.Submit(o, tx); err == nil {
+					r.out.Probes["submitted_to_several_nodes"]++
+				}
+			}
+		}
 	case "transfer":
 		src := r.pickCoin(int(op.A))
 		if src == nil {
@@ -430,7 +439,7 @@ func (r *crun) finish(nontrivial bool, sample any) *harness.Outcome {
 func honestWorkload(rng *core.Rng, p *harness.Plan, from, to time.Duration, deposits, transfers int) {
 	span := int64((to - from) / time.Microsecond)
 	for i := 0; i < deposits; i++ {
-		p.Ops = append(p.Ops, harness.Op{At: int64(from/time.Microsecond) + rng.Int64N(span/2+1), Kind: "deposit", S: fmt.Sprint("d", i), N: rng.IntN(9), A: int64(rng.IntN(4)), B: int64(rng.IntN(2000)), C: int64(rng.IntN(20))})
+		p.Ops = append(p.Ops, harness.Op{At: int64(from/time.Microsecond) + rng.Int64N(span/2+1), Kind: "deposit", S: fmt.Sprint("d", i), N: rng.IntN(9), A: int64(rng.IntN(4)), B: int64(rng.IntN(2000)), C: int64(rng.IntN(20)), D: int64(rng.IntN(4) / 2 * (1 + rng.IntN(2)))})
 	}
 	for i := 0; i < transfers; i++ {
 		p.Ops = append(p.Ops, harness.Op{At: int64(from/time.Microsecond) + span/3 + rng.Int64N(2*span/3+1), Kind: "transfer", S: fmt.Sprint("t", i), N: rng.IntN(9), A: int64(rng.IntN(1000)), C: int64(rng.IntN(20))})
